@@ -2,7 +2,7 @@
    all the assumed raft safety properties), with at most a minority of nodes down at every step. Witnesses closed by
    vm_compute. Each defect was first reproduced on the real code by the harness (see props/C05/NOTES.md). *)
 From Coq Require Import List Arith NArith ZArith Bool Lia.
-From OG Require Import C05.Model C05.Trunc.
+From OG Require Import C05.Model C05.Trunc C05.Catchup.
 Import ListNotations.
 
 (* every prefix of the trace keeps a majority available *)
@@ -157,4 +157,22 @@ Theorem lookup_without_exact_case_refuted :
     seek false E i <> SFound i /\ send_append false E snp (i + 1) = false /\ send_append true E snp (i + 1) = true.
 Proof.
   exists (layout_files 3 1 8), 4%N, 7%N. vm_compute. repeat split; try reflexivity; try discriminate.
+Qed.
+
+(* the forced step of forced_witness is exactly what the hypothesis of Props.catch_up_from_log_guaranteed excludes:
+   member 2 holds one committed entry when the leader forces the truncation with index 3 *)
+Fixpoint upto_force (es : list event) : list event :=
+  match es with
+  | [] => []
+  | TruncForce _ :: _ => []
+  | e :: r => e :: upto_force r
+  end.
+
+Example forced_step_is_not_sound :
+  match run raft_ref (init (cfg_today 3 2)) (upto_force forced_witness) with
+  | Some s => ~ sound s (TruncForce 3)
+  | None => False
+  end.
+Proof.
+  vm_compute. intros [H|H]; [discriminate|]. specialize (H 2). vm_compute in H. lia.
 Qed.
